@@ -17,6 +17,12 @@ def run(res):
     cases = C09.run(res, props=PROPS, prop_filter=lambda c: True)
     if cases is None:
         return
+    ws_frames(res)
+
+
+def ws_frames(res):
+    """raw frames to a real server / from a fake server to real clients (with and without handlers), library side in a
+    worker subprocess; shared with C13 (a panicking handler over WebSocket fails only its own call, on both sides)"""
     exe = vlib.build_harness()[2]
     rc, obs, err, bad = vlib.run_family(exe, "ws-frames", seed=res.seed, tier=res.tier, timeout=1500)
     if rc != 0 or bad or not obs:
